@@ -666,7 +666,8 @@ def execute_pixels(desc, ctx):
         elif key[2] == 0:
             ctx.check(src == b'\0\0\0\xff' * (tex.w * tex.h), 'blank_frame', f'unfilled frame {key} is not opaque black')
         got = frame_bytes(get_frame(r, tex, key))
-        mw = mip_dims(tex.w, tex.h, key[2])[0]
+        mw, mh = mip_dims(tex.w, tex.h, key[2])
+        check_buffer_view(ctx, get_frame(r, tex, key), got, mw, mh, f'read-back frame {key}', full=False)
         diff = pixel_diff(tex.fmt, src, got, mw)
         if diff is not None:
             swapped = pixel_diff(tex.fmt, swap_rb(src), got, mw) is None
@@ -827,7 +828,194 @@ def bounds_strategy(tier):
         'pix': pix_strategy(),
         'use_pixel_type': st.booleans(),
         'ops': st.lists(st.tuples(st.sampled_from(['get', 'set']), coord, coord, st.integers(0, 255)).map(list), max_size=12),
+        'copy': st.lists(st.sampled_from(COPY_SOURCES), max_size=4),
+        'fill': st.one_of(st.none(), st.lists(st.integers(0, 255), min_size=0, max_size=4)),
+        'layout': st.sampled_from(['flat', 'frames', 'depth', 'cube7', 'cube6']),
     })
+
+
+COPY_SOURCES = ['bytes', 'bytearray', 'array', 'memoryview', 'strided_view', 'frame', 'frame_unloaded', 'bgr888', 'bgra8888',
+                'wrong_size', 'frame_wrong_size']
+
+
+def check_buffer_view(ctx, frame, want: bytes, fw: int, fh: int, who: str, full: bool = True):
+    """memoryview(frame): shape (height, width, 4), mv[y, x, c] row-major, IndexError outside."""
+    mv = memoryview(frame)
+    if fw != fh:
+        ctx.label('buffer:non_square')
+    ok = ctx.check(tuple(mv.shape) == (fh, fw, 4) and mv.ndim == 3 and mv.format == 'B', 'buffer_shape',
+                   f'{who}: memoryview(frame) of a {fw}x{fh} (width x height) frame has shape {tuple(mv.shape)} format '
+                   f'{mv.format!r}, expected (height, width, 4) = {(fh, fw, 4)}', w=fw, h=fh)
+    ctx.check(mv.tobytes() == want, 'buffer_bytes', f'{who}: memoryview(frame).tobytes() differs from the pixel data')
+    ctx.check(bytes(frame) == want, 'buffer_bytes', f'{who}: bytes(frame) differs from the pixel data')
+    if not ok:
+        return
+    cells = [(x, y) for y in range(fh) for x in range(fw)] if full else [(0, 0), (fw - 1, 0), (0, fh - 1), (fw - 1, fh - 1)]
+    for x, y in cells:
+        got = tuple(mv[y, x, c] for c in range(4))
+        o = (y * fw + x) * 4
+        if got != tuple(want[o:o + 4]):
+            ctx.fail('buffer_index', f'{who}: memoryview(frame)[y={y}, x={x}, :] = {got} on a {fw}x{fh} frame, pixel data holds '
+                     f'{tuple(want[o:o + 4])}', w=fw, h=fh)
+    for y, x, c in [(fh, 0, 0), (0, fw, 0), (fh, fw - 1, 0), (fh - 1, fw, 0), (-fh - 1, 0, 0), (0, -fw - 1, 0), (0, 0, 4),
+                    (max(fw, fh), 0, 0), (0, max(fw, fh), 0)]:
+        if (-fh <= y < fh) and (-fw <= x < fw) and (0 <= c < 4):
+            continue
+        try:
+            val = mv[y, x, c]
+        except IndexError:
+            pass
+        else:
+            ctx.fail('buffer_bounds', f'{who}: memoryview(frame)[y={y}, x={x}, c={c}] on a {fw}x{fh} frame returned {val} '
+                     f'instead of raising IndexError', w=fw, h=fh)
+    mv.release()
+
+
+def check_exports(ctx, frame, want: bytes, fw: int, fh: int, who: str):
+    if hasattr(frame, 'tobytes'):
+        ctx.check(bytes(frame.tobytes()) == want, 'export_tobytes', f'{who}: tobytes() differs from the pixel data')
+    try:
+        import PIL.Image  # noqa: F401  (installed offline in /venv; skipped otherwise)
+    except ImportError:
+        ctx.label('pil_skipped')
+        return
+    img = frame.to_PIL()
+    ctx.label('to_PIL')
+    ctx.check(img.size == (fw, fh) and img.mode == 'RGBA', 'export_pil', f'{who}: to_PIL() gives size {img.size} mode {img.mode}, '
+              f'frame is {fw}x{fh}')
+    ctx.check(img.tobytes() == want, 'export_pil', f'{who}: to_PIL() pixels differ from the frame')
+    if img.size == (fw, fh):
+        o = ((fh - 1) * fw) * 4
+        ctx.check(tuple(img.getpixel((0, fh - 1))) == tuple(want[o:o + 4]), 'export_pil',
+                  f'{who}: to_PIL().getpixel((0, {fh - 1})) = {img.getpixel((0, fh - 1))}, frame holds {tuple(want[o:o + 4])}')
+
+
+def check_copy_fill(desc, ctx, frame, fw: int, fh: int):
+    """copy_from() with every kind of source, fill(); each time the whole buffer must be what was asked for."""
+    import array
+    from srctools.vtf import VTF, ImageFormats
+    n = fw * fh
+    for i, kind in enumerate(desc.get('copy', [])):
+        ctx.label('copy:' + kind)
+        src = make_pixels(desc['pix'], f'copy{i}', n)
+        before = frame_bytes(frame)
+        want = src
+        if kind == 'bytes':
+            frame.copy_from(src)
+        elif kind == 'bytearray':
+            frame.copy_from(bytearray(src))
+        elif kind == 'array':
+            frame.copy_from(array.array('B', src))
+        elif kind == 'memoryview':
+            frame.copy_from(memoryview(src))
+        elif kind == 'strided_view':
+            doubled = bytearray(2 * len(src))
+            doubled[::2] = src
+            frame.copy_from(memoryview(doubled)[::2])
+        elif kind in ('frame', 'frame_unloaded'):
+            other = VTF(fw, fh, thumb_fmt=ImageFormats.NONE)
+            other.get().copy_from(src)
+            if kind == 'frame_unloaded':
+                buf = io.BytesIO()
+                other.save(buf)
+                other = VTF.read(io.BytesIO(buf.getvalue()))
+            frame.copy_from(other.get())
+        elif kind == 'bgr888':
+            frame.copy_from(src[:3 * n], ImageFormats.BGR888)
+            want = bytearray(b'\xff' * (4 * n))
+            want[0::4], want[1::4], want[2::4] = src[2:3 * n:3], src[1:3 * n:3], src[0:3 * n:3]
+            want = bytes(want)
+        elif kind == 'bgra8888':
+            frame.copy_from(src, format=ImageFormats.BGRA8888)
+            want = swap_rb(src)
+        elif kind == 'wrong_size':
+            try:
+                frame.copy_from(src + b'\0\0\0\0')
+            except ValueError:
+                pass
+            else:
+                ctx.fail('copy_from_size', f'copy_from() accepted {4 * n + 4} bytes for a {fw}x{fh} frame')
+            want = before
+        else:
+            other = VTF(fw * 2, fh, thumb_fmt=ImageFormats.NONE)
+            try:
+                frame.copy_from(other.get())
+            except ValueError:
+                pass
+            else:
+                ctx.fail('copy_from_size', f'copy_from() accepted a {fw * 2}x{fh} frame for a {fw}x{fh} frame')
+            want = before
+        got = frame_bytes(frame)
+        ctx.check(got == want, 'copy_from', f'after copy_from({kind}) the {fw}x{fh} frame holds {got[:16].hex()}..., expected '
+                  f'{bytes(want[:16]).hex()}...', source=kind)
+        ctx.check((frame.width, frame.height) == (fw, fh), 'copy_from', f'copy_from({kind}) changed the frame size')
+        check_buffer_view(ctx, frame, bytes(want), fw, fh, f'after copy_from({kind})', full=False)
+    fill = desc.get('fill')
+    if fill is not None:
+        ctx.label('fill')
+        frame.fill(*fill)
+        px = bytes(fill) + bytes([0, 0, 0, 255])[len(fill):]     # documented defaults r=g=b=0, a=255
+        ctx.check(frame_bytes(frame) == px * n, 'fill', f'fill{tuple(fill)} on a {fw}x{fh} frame gives '
+                  f'{frame_bytes(frame)[:8].hex()}..., expected {px.hex()} repeated')
+        check_buffer_view(ctx, frame, px * n, fw, fh, 'after fill()', full=False)
+
+
+def check_get_keywords(desc, ctx, w: int, h: int):
+    """VTF.get(frame=, depth=, side=, mipmap=): every combination addresses its own frame of the right size."""
+    from srctools.vtf import VTF, ImageFormats, VTFFlags, CubeSide
+    layout = desc.get('layout', 'flat')
+    ctx.label('get_layout:' + layout)
+    cube = layout.startswith('cube')
+    frames = 2 if layout in ('frames', 'cube6') else 1
+    depth = 3 if layout == 'depth' else 1
+    v = VTF(w, h, version=(7, 5 if layout == 'cube6' else 4), frames=frames, depth=depth,
+            flags=VTFFlags.ENVMAP if cube else VTFFlags.EMPTY, thumb_fmt=ImageFormats.NONE)
+    nfaces = (6 if layout == 'cube6' else 7) if cube else depth
+    keys = [(f, s, m) for f in range(frames) for s in range(nfaces) for m in range(v.mipmap_count)]
+    ctx.check(len(v) == len(keys), 'get_len', f'len() = {len(v)}, expected {len(keys)} frames for layout {layout}')
+
+    def fetch(f, s, m):
+        if cube:
+            return v.get(frame=f, side=CubeSide(s), mipmap=m)
+        return v.get(frame=f, depth=s, mipmap=m)
+    for i, (f, s, m) in enumerate(keys):
+        fr = fetch(f, s, m)
+        ctx.check((fr.width, fr.height) == mip_dims(w, h, m), 'get_dims', f'get{(f, s, m)} is {fr.width}x{fr.height}')
+        fr.fill(f + 1, s + 1, m + 1, i & 255)
+    for i, (f, s, m) in enumerate(keys):
+        fr = fetch(f, s, m)
+        ctx.check(fr is fetch(f, s, m), 'get_identity', f'get{(f, s, m)} returns a different object each time')
+        ctx.check(tuple(fr[0, 0]) == (f + 1, s + 1, m + 1, i & 255), 'get_key',
+                  f'get(frame={f}, depth/side={s}, mipmap={m}) returns the frame filled as {tuple(fr[0, 0])} '
+                  f'(frame+1, face+1, mip+1, n), layout {layout}')
+    # defaults: frame 0, depth 0, mipmap 0
+    if not cube:
+        ctx.check(v.get() is fetch(0, 0, 0) and v.get(mipmap=0) is v.get(frame=0, depth=0), 'get_defaults', 'get() is not frame 0/depth 0/mip 0')
+        if depth > 1:
+            ctx.check(v.get(depth=1) is fetch(0, 1, 0), 'get_defaults', 'get(depth=1) is not frame 0, slice 1, mip 0')
+    else:
+        ctx.check(v.get(side=CubeSide.FRONT) is fetch(0, CubeSide.FRONT.value, 0), 'get_defaults', 'get(side=FRONT) is not frame 0, mip 0')
+        for bad in ({}, {'depth': 0}):
+            try:
+                res = v.get(**bad)
+            except (ValueError, TypeError, LookupError):
+                pass
+            else:
+                ctx.fail('get_misuse', f'cubemap get({bad}) without a side returned {res!r}')
+        try:
+            res = v.get(side=CubeSide.UP, depth=1)
+        except (ValueError, TypeError, LookupError):
+            pass
+        else:
+            ctx.fail('get_misuse', f'get(side=UP, depth=1) returned {res!r}')
+    for bad in ({'frame': frames}, {'mipmap': v.mipmap_count}, {'frame': -1}):
+        kw = dict(bad, side=CubeSide.UP) if cube else bad
+        try:
+            res = v.get(**kw)
+        except LookupError:
+            pass
+        else:
+            ctx.fail('get_missing', f'get({kw}) on a texture with {frames} frames / {v.mipmap_count} mips returned {res!r}')
 
 
 def execute_bounds(desc, ctx):
@@ -853,6 +1041,8 @@ def execute_bounds(desc, ctx):
     ctx.label('src:' + desc['source'], f'frame:{shape_class(fw, fh)}')
     ctx.nontrivial(fw != fh or fw > 1)
     model = bytearray(data if data is not None else frame_bytes(frame))
+    check_buffer_view(ctx, frame, bytes(model), fw, fh, f'{desc["source"]} frame')
+    check_exports(ctx, frame, bytes(model), fw, fh, f'{desc["source"]} frame')
     coords = []
     xs = [fw, -1, -fw, -fw - 1, fw + 1, 2 * fw, 0, fw - 1]
     ys = [0, fh - 1, fh, -1, -fh, -fh - 1, fh + 1, 2 * fh]
@@ -894,6 +1084,18 @@ def execute_bounds(desc, ctx):
                 ctx.fail('set_touched_other', f'after frame[{x}, {y}] = {px} on a {fw}x{fh} frame pixel (x={i % fw}, y={i // fw}) '
                          f'is {tuple(now[4 * i:4 * i + 4])}, model {tuple(model[4 * i:4 * i + 4])}', x=x, y=y, w=fw, h=fh)
                 model = bytearray(now)
+    check_buffer_view(ctx, frame, bytes(model), fw, fh, 'after the get/set sequence')
+    # the buffer is the frame's own storage: a write through it is seen by frame[x, y]
+    mv = memoryview(frame)
+    if tuple(mv.shape) == (fh, fw, 4) and not mv.readonly:
+        x, y = fw - 1, fh - 1
+        mv[y, x, 1] = model[(y * fw + x) * 4 + 1] ^ 0x55
+        model[(y * fw + x) * 4 + 1] ^= 0x55
+        ctx.check(tuple(frame[x, y]) == tuple(model[(y * fw + x) * 4:(y * fw + x) * 4 + 4]) and frame_bytes(frame) == bytes(model),
+                  'buffer_write', f'write through memoryview(frame)[{y}, {x}, 1] on a {fw}x{fh} frame is not what frame[{x}, {y}] shows')
+    mv.release()
+    check_copy_fill(desc, ctx, frame, fw, fh)
+    check_get_keywords(desc, ctx, w, h)
 
 
 # ------------------------------------------------------------------ sub-check: mipmaps
@@ -1246,7 +1448,9 @@ SUBCHECKS = [
     Sub('sheet', execute_sheet, strategy=res_strategy, quick=3000, thorough=40000, floor=500,
         must_hit=('nseq:3', 'sheetver:0', 'sheetver:1', 'sheetver:None')),
     Sub('bounds', execute_bounds, strategy=bounds_strategy, quick=2000, thorough=30000, floor=300,
-        must_hit=('src:ctor', 'src:read', 'src:read_mip', 'get_inside', 'frame:1xN', 'frame:wide', 'frame:tall')),
+        must_hit=('src:ctor', 'src:read', 'src:read_mip', 'get_inside', 'frame:1xN', 'frame:wide', 'frame:tall', 'buffer:non_square',
+                  'to_PIL', 'fill', 'get_layout:cube6', 'get_layout:cube7', 'get_layout:depth', 'get_layout:frames')
+        + tuple('copy:' + k for k in COPY_SOURCES)),
     Sub('resave', execute_resave, strategy=resave_strategy, quick=1600, thorough=16000, floor=300,
         must_hit=('access:none', 'access:subset', 'access:all', 'unloaded_mips', 'reduced', 'exact', 'nmips:4')
         + tuple('fmt:' + f for f in RESAVE_FORMATS)),
